@@ -760,6 +760,15 @@ func (in *Interp) indexOp(g *G, fr *Frame, ins *ssa.Index) {
 		}
 		in.set(fr, ins, copyVal(es[i]))
 	case KStr:
+		if cs, ok := x.ConcStr(); ok && iv.R == nil { // concrete string, concrete index: no terms needed
+			i := sextW(iv.N, 64)
+			if i < 0 || i >= int64(len(cs)) {
+				in.goPanic(g, fmt.Sprintf("index out of range [%d] with length %d", i, len(cs)))
+				return
+			}
+			in.set(fr, ins, mkInt(uint64(cs[i]), 8))
+			return
+		}
 		bs, ok := in.ropeBytes(x)
 		if !ok {
 			unsupported("index of atom string")
@@ -779,6 +788,15 @@ func (in *Interp) lookup(g *G, fr *Frame, ins *ssa.Lookup) {
 	x := in.get(fr, ins.X)
 	k := in.get(fr, ins.Index)
 	if x.K == KStr {
+		if cs, ok := x.ConcStr(); ok && k.R == nil { // concrete string, concrete index: no terms needed
+			i := sextW(k.N, 64)
+			if i < 0 || i >= int64(len(cs)) {
+				in.goPanic(g, fmt.Sprintf("index out of range [%d] with length %d", i, len(cs)))
+				return
+			}
+			in.set(fr, ins, mkInt(uint64(cs[i]), 8))
+			return
+		}
 		bs, ok := in.ropeBytes(x)
 		if !ok {
 			unsupported("index of atom string")
